@@ -142,7 +142,10 @@ bool ParsePosixSpec(const std::string& spec, PosixTimeZone* res) {
   p = ParseAbbr(p, &res->std_abbr);
   p = ParseOffset(p, 0, 24, -1, &res->std_offset);
   if (p == nullptr) return false;
-  if (*p == '\0') return true;
+  if (*p == '\0') {
+    res->dst_abbr.clear();  // "no DST", even when *res is being reused
+    return true;
+  }
 
   p = ParseAbbr(p, &res->dst_abbr);
   if (p == nullptr) return false;
